@@ -195,8 +195,9 @@ func (b *Buffer) ServeHTTP(w http.ResponseWriter, req *http.Request) {
 			return
 		}
 
+		// a response without body bytes is delivered as such: there is nothing to read back
 		var reader multibuf.MultiReader
-		if bw.expectBody(outReq) {
+		if bw.expectBody(outReq) && bw.written {
 			rdr, err := writer.Reader()
 			if err != nil {
 				b.log.Error("vulcand/oxy/buffer: failed to read response, err: %v", err)
@@ -270,6 +271,7 @@ type bufferWriter struct {
 	buffer         multibuf.WriterOnce
 	responseWriter http.ResponseWriter
 	hijacked       bool
+	written        bool
 	writeError     error
 	log            utils.Logger
 }
@@ -312,6 +314,8 @@ func (b *bufferWriter) Write(buf []byte) (int, error) {
 		b.log.Error("write: %v", err)
 		length = len(buf)
 		b.writeError = err
+	} else {
+		b.written = true
 	}
 	return length, nil
 }
